@@ -83,12 +83,34 @@ func (x *Exec) script(o *Obl, inputs []ModelVar, skipReveal bool) string {
 			getv = append(getv, in.Term)
 		}
 	}
+	// skolem-guided instantiation (zz_skolem.go)
+	goalS := ""
+	var sks []sexprBinder
+	var instances []string
+	if !o.ExpectSat {
+		goalS, sks = skolemGoal(o.Goal.S, 0)
+		if len(sks) > 0 {
+			var asserts []string
+			for _, a := range o.Axioms {
+				asserts = append(asserts, a.S)
+			}
+			for i, p := range o.PC {
+				if keep[i] {
+					asserts = append(asserts, p.S)
+				}
+			}
+			instances = skolemInstances(asserts, sks)
+		}
+	}
 	var b strings.Builder
 	b.WriteString("(set-option :produce-models true)\n(set-logic ALL)\n")
 	if o.D != nil {
 		b.WriteString(o.D.TextFor(used))
 	} else {
 		b.WriteString(o.Decls)
+	}
+	for _, sk := range sks {
+		fmt.Fprintf(&b, "(declare-const %s %s)\n", sk.name, sk.sort)
 	}
 	for _, a := range o.Axioms {
 		fmt.Fprintf(&b, "(assert %s)\n", a.S)
@@ -100,8 +122,14 @@ func (x *Exec) script(o *Obl, inputs []ModelVar, skipReveal bool) string {
 			fmt.Fprintf(&b, "(assert %s)\n", p.S)
 		}
 	}
+	for _, in := range instances {
+		if !emitted[in] {
+			emitted[in] = true
+			fmt.Fprintf(&b, "(assert %s)\n", in)
+		}
+	}
 	if !o.ExpectSat {
-		fmt.Fprintf(&b, "(assert (not %s))\n", o.Goal.S)
+		fmt.Fprintf(&b, "(assert (not %s))\n", goalS)
 	}
 	b.WriteString("(check-sat)\n")
 	if len(getv) > 0 {
@@ -346,11 +374,17 @@ func (s *Solver) Solve(name string, script string, expectSat bool) *SolveResult 
 	}
 	cctx, cancel := context.WithCancel(ctx)
 	defer cancel()
+	full := s.FullSecs
+	if expectSat && full > 6 {
+		// a reachability cover is a vacuity guard: "not refuted" is accepted, so a long search for a
+		// model of quantified hypotheses buys nothing
+		full = 6
+	}
 	ch := make(chan res, len(solverSpecs))
 	for _, sp := range solverSpecs {
 		sp := sp
 		go func() {
-			st, raw, d := runSolver(cctx, sp, file, s.FullSecs, s.Seed)
+			st, raw, d := runSolver(cctx, sp, file, full, s.Seed)
 			ch <- res{st, raw, d, sp.name}
 		}()
 	}
